@@ -18,10 +18,12 @@ import collections
 import copy
 
 from harness import lib_prefetch as lp
+from harness import lib_prefetch_values as lv
 
 PID = 'C15'
 TITLE = 'The prefetching generator protocol delivers the generator faithfully'
-LEAN_MODULES = ['MlModel.Properties.C15', 'MlModel.Properties.C15Multi', 'MlModel.Witness.C15']
+LEAN_MODULES = ['MlModel.Properties.C15', 'MlModel.Properties.C15Multi', 'MlModel.Properties.C15Shutdown',
+                'MlModel.Properties.C15Values', 'MlModel.Witness.C15', 'MlModel.Witness.C15Values']
 TRUSTED = [
     'scheduler shim (harness/sched/shim.py) implements CPython Lock/RLock/Condition(FIFO notify, no spurious wake-up)/'
     'queue.Queue/Thread.start+join semantics; one atomic step = one synchronisation operation, the thread-local code after it '
@@ -31,7 +33,9 @@ TRUSTED = [
     'a call to a stopped server fails with a deadline status at once; arguments/results pass through the repo\'s own pickler',
     'the 60 s heartbeat time-out of run_until_shutdown is never taken (it only re-runs the statistics logging)',
 ]
-ASSUMPTIONS = ['C15_faithful / C15_failure / C15_no_deadlock / C15_variant / C15_terminates: one client whose requests are sequential '
+ASSUMPTIONS = ['value level (C15_failure_any_exception, C15_faithful_any_return): the generator\'s ELEMENTS are not Exception instances '
+               '(open finding C15-F-inband-exception otherwise); exception classes do not override __eq__ / __bool__; pickling preserves class and args',
+               'C15_faithful / C15_failure / C15_no_deadlock / C15_variant / C15_terminates: one client whose requests are sequential '
                '(it awaits every reply), nobody else talks to the server (no shutdown request: the server thread legitimately stays parked in run_until_shutdown)',
                'IteratorQueue of the server: no time-out configured, ignore_error=False (the constructor defaults)']
 PROVED_LIVENESS = (
@@ -57,6 +61,14 @@ RULE = ('one-client cases: generator length 0..6 x failure position (none or any
         'client loop / shutdown already requested) and the check exits 2 if one of these arms was not exercised; '
         'schedules: seeded uniform-random and PCT-style priorities chosen on the REAL code, replayed choice by choice on the Lean LTS '
         'comparing every executed operation label, the enabled thread set before every step and all outcomes; '
+        'WINDOW schedules (lib_prefetch.hold_chooser): one request (init_generator healthy / failing / of a client loop; next_batch; '
+        'stop_prefetch; shutdown) is taken to the lock acquisition that follows its unlocked look at a flag / attribute and held there while '
+        'every other thread (shutdown + the server thread\'s whole callback, re-initialisation, stop, client loop) runs until nothing else can, '
+        'x what precedes it (nothing / generator installed / partly consumed / exhausted / failed) x prefetch; the windows a run went through '
+        'are classified from the ORDER of operations in its trace and four of them are enforced (exit 2 if not exercised); '
+        'VALUE level (stage "values", real OS threads, Model/PrefetchClient.lean): every exception class / constructed exception / compared '
+        'constant that the functions under the property name is read off the working tree with ast at run time and used as the generator\'s '
+        'failure, as one of its elements and as its return value x batch 1,2,3 x 0/3 preceding elements (every (value, role) enforced); '
         'non-trivial = threads took turns at least 10 times; plus an end-to-end stage: the real client loop against the real server '
         'on real OS threads in the fake\'s threaded and inline modes')
 
@@ -88,6 +100,10 @@ def gen_cases(ctx):
                        threads=[dict(kind='client', src=gen_src(0, n, fail_at), ret=900, batch=batch)])
   # ---- init_generator whose lazy object cannot be turned into a generator (constructor raises / not iterable)
   yield from gen_failed_init(ctx)
+  # ---- windows between an unlocked look at a flag / attribute and the lock: everybody else runs inside the gap
+  yield from gen_windows(ctx)
+  # ---- value level: generators that RAISE / YIELD / RETURN exactly the values the protocol code special-cases
+  yield from gen_values(ctx)
   # ---- re-initialisation / stop / shutdown at a scheduler-chosen point
   m = 3000 if ctx.quick else 40000
   for _ in range(m):
@@ -172,14 +188,118 @@ def gen_failed_init(ctx):
     yield dict(prefetch=rng.choice([1, 2, 3]), threads=_renumber(ths), sched=sched_spec(rng))
 
 
+def gen_windows(ctx):
+  """WINDOW schedules (lib_prefetch.hold_chooser): one request is taken up to the lock acquisition that follows its
+  unlocked check — `_init_iterator`: `if self._shutdown_requested` … unpickle … `with self._generator_lock`;
+  `_next_batch`: `generator = self._generator` … `get_batch`'s dequeue lock; `_stop_prefetch` / `_request_shutdown`: the
+  lock itself — and is held there while every other thread (a shutdown with the server thread's callback, a
+  re-initialisation, a stop, a client loop) runs until nothing else can; then it resumes.  What precedes the request
+  (`lead` random steps of the others: nothing / a generator installed / partly consumed / exhausted) is drawn too."""
+  rng = ctx.rng
+  reps = 2 if ctx.quick else 12
+  def spec(hold, at):
+    return dict(kind='hold', seed=rng.randrange(10**9), hold=hold, at=at, lead=rng.choice([0, 0, 3, 8, 15, 25, 40]))
+  bases = [[], [dict(kind='client', n=3, batch=1)], [dict(kind='client', n=4, batch=2)], [dict(kind='init', n=2)],
+           [dict(kind='init', n=0)], [dict(kind='client', n=2, fail_at=1, batch=1)]]
+  # -- init_generator (bare request / client loop; healthy / failing construction) held at the generator lock
+  helds = [dict(kind='init', n=3), dict(kind='init', n=0), dict(kind='client', n=2, batch=1),
+           dict(kind='init', build='raise'), dict(kind='client', build='noniter', batch=1)]
+  rivals = [[dict(kind='shutdown')], [dict(kind='shutdown'), dict(kind='next', batch=1)], [dict(kind='stop', fatal=False)],
+            [dict(kind='init', n=1)], []]
+  for base in bases:
+    for held in helds:
+      for rv in rivals:
+        for prefetch in (1, 2):
+          for _ in range(reps if rv and rv[0]['kind'] == 'shutdown' else 1):
+            ths = _renumber(copy.deepcopy(base) + [copy.deepcopy(held)] + copy.deepcopy(rv))
+            ctx.count('kind', 'window:init' + ('+shutdown' if rv and rv[0]['kind'] == 'shutdown' else ''))
+            yield dict(prefetch=prefetch, threads=ths, sched=spec(len(base) + 1, 'acquire gen'))
+  # -- next_batch held between reading self._generator and get_batch's dequeue lock
+  for base in ([dict(kind='init', n=3)], [dict(kind='init', n=1)], [dict(kind='client', n=4, batch=1)]):
+    for rv in ([dict(kind='init', n=2)], [dict(kind='stop', fatal=True)], [dict(kind='shutdown')],
+               [dict(kind='init', build='raise')], [dict(kind='init', n=1), dict(kind='shutdown')]):
+      for prefetch in (1, 2):
+        for _ in range(reps):
+          ths = _renumber(copy.deepcopy(base) + [dict(kind='next', batch=rng.choice([1, 2, 3]))] + copy.deepcopy(rv))
+          ctx.count('kind', 'window:next')
+          sp = spec(len(base) + 1, 'acquire cond1#')
+          sp['lead'] = rng.choice([8, 12, 20, 30, 45])      # the generator has to exist when the request arrives
+          yield dict(prefetch=prefetch, threads=ths, sched=sp)
+  # -- stop_prefetch / shutdown held at their lock
+  for base in ([dict(kind='client', n=3, batch=1)], [dict(kind='init', n=2)]):
+    for held, at in ((dict(kind='stop', fatal=False), 'acquire gen'), (dict(kind='shutdown'), 'acquire shut')):
+      for rv in ([dict(kind='init', n=1)], [dict(kind='shutdown')], [dict(kind='next', batch=2)]):
+        for _ in range(reps):
+          ths = _renumber(copy.deepcopy(base) + [copy.deepcopy(held)] + copy.deepcopy(rv))
+          ctx.count('kind', 'window:' + held['kind'])
+          yield dict(prefetch=rng.choice([1, 2]), threads=ths, sched=spec(len(base) + 1, at))
+
+
+def gen_values(ctx):
+  """every special value read off the source (lib_prefetch_values.special_literals: exception classes named in isinstance /
+  except / raise, exceptions constructed to compare with, string / tuple constants of comparisons, None) in every ROLE —
+  the generator's failure, one of its elements, its return value — x batch size x how much precedes it"""
+  from harness.core import REPO
+  rng = ctx.rng
+  lit = lv.special_literals(REPO)
+  excs, plains = lv.derived_specials(lit), lv.plain_specials(lit)
+  k = 0
+  for t in excs + plains:
+    for role in ('raise', 'yield', 'return'):
+      if role == 'raise' and t[0] != 'exc':
+        continue
+      for batch in (1, 2, 3):
+        for npre in ((0, 3) if ctx.quick else (0, 1, 2, 3, 5)):
+          pre = [['int', 10 + j] for j in range(npre)]
+          k += 1
+          case = dict(stage='values', prefetch=1 + k % 3, batch=batch, mode=('inline', 'threaded')[k % 2], yields=pre,
+                      fin={'ret': [['int', 77]]}, role=role, special=t)
+          if role == 'raise':
+            case['fin'] = {'raise': t}
+          elif role == 'yield':
+            case['yields'] = pre + [t, ['int', 99]]
+          else:
+            case['fin'] = {'ret': [t]}
+          ctx.count('kind', f'values:{role}')
+          yield case
+  # a few mixed scripts
+  for _ in range(60 if ctx.quick else 1500):
+    ys = [rng.choice(plains + [['int', rng.randrange(100)]] * 3) for _ in range(rng.randrange(0, 6))]
+    fin = {'raise': rng.choice(excs)} if rng.random() < 0.5 else {'ret': [rng.choice(plains + excs)]}
+    ctx.count('kind', 'values:mixed')
+    yield dict(stage='values', prefetch=rng.choice([1, 2, 3]), batch=rng.choice([1, 2, 3, 5]),
+               mode=rng.choice(['inline', 'threaded']), yields=ys, fin=fin, role='mixed', special=None)
+
+
+def _is_values(case):
+  return case.get('stage') == 'values'
+
+
 def run_impl(case):
+  if _is_values(case):
+    return lv.run_values(case, timeout=4.0)
   return lp.run_real(case)
 
 
 model_requests = None
-model_requests_obs = lp.model_requests_obs
-model_obs = lp.model_obs
-compare = lp.compare
+
+
+def model_requests_obs(case, obs):
+  if _is_values(case):
+    return [lv.model_request(case)]
+  return lp.model_requests_obs(case, obs)
+
+
+def model_obs(case, resps):
+  if _is_values(case):
+    return lv.model_obs(case, resps[0])
+  return lp.model_obs(case, resps)
+
+
+def compare(obs, m):
+  if obs.get('stage') == 'values':
+    return lv.compare(obs, m)
+  return lp.compare(obs, m)
 
 
 # ------------------------------------------------------------------ the property, on the real run
@@ -214,7 +334,42 @@ def _newest_queue(obs):
   return max(ks) if ks else None
 
 
+def _after_shutdown(case, obs):
+  """read off the TRACE of synchronisation operations (the order of events) and the requests' answers only"""
+  trace = obs.get('trace') or []
+  ths, n = case['threads'], len(case['threads'])
+  done_at = next((k for k, (tid, lbl) in enumerate(trace) if tid == lp.MAIN and lbl == 'release gen'), None)
+  if done_at is None:
+    return None
+  for k in range(done_at + 1, len(trace)):
+    tid, lbl = trace[k]
+    if lbl == 'thread_start thread':
+      return (f'request thread {tid} ({ths[tid - 1]["kind"] if 1 <= tid <= n else "?"}) installed a generator and started its '
+              f'prefetch thread at step {k}, AFTER the server\'s shutdown callback had completed (step {done_at}): nothing will '
+              f'ever stop that generator')
+  for i, p in enumerate(ths):
+    if p['kind'] not in ('init', 'client'):
+      continue
+    took = next((k for k, (tid, lbl) in enumerate(trace) if tid == i + 1 and lbl == 'acquire gen'), None)
+    if took is None or took < done_at:
+      continue
+    o = obs['threads'][i]
+    if not o['done']:
+      continue     # reported by the blocked-thread clause
+    if o.get('outcome') != {'raise': 'TimeoutError'}:
+      return (f'{p["kind"]} request {i + 1} took the generator lock at step {took}, after the shutdown callback had completed '
+              f'(step {done_at}), and was answered with {o.get("outcome")} instead of the shutdown TimeoutError')
+    if o.get('yielded'):
+      return f'client {i + 1} yielded {o["yielded"]} from a server that had shut down before its generator could be installed'
+  if any(not pr['done'] for pr in obs.get('producers', [])):
+    return (f'a prefetch thread is still alive after the shutdown callback completed at step {done_at}: {obs["producers"]} '
+            f'(left: {obs["left"]})')
+  return None
+
+
 def oracle(case, obs):
+  if _is_values(case):
+    return lv.oracle(case, obs)
   gens = _gens(case)
   ths, n = case['threads'], len(case['threads'])
   if obs['outcome'] not in ('done', 'deadlock'):
@@ -235,6 +390,13 @@ def oracle(case, obs):
       continue
     if tid == lp.MAIN:
       return f'the server thread stays blocked at "{label}" after the shutdown request (left: {obs["left"]})'
+  # -- shutting down stops the generator FOR GOOD: once the server thread's shutdown callback (the locked stop inside
+  #    `_shutdown_server`) has completed, no generator is installed any more — an init_generator request that gets the
+  #    generator lock afterwards (it passed its entry check earlier and was delayed: slow unpickling, waiting for the
+  #    lock) is answered with the shutdown TimeoutError, starts no prefetch thread, and no prefetch thread survives
+  w = _after_shutdown(case, obs)
+  if w is not None:
+    return w
   # -- an init_generator whose lazy object cannot be turned into a generator FAILS (with the constructor's exception /
   #    a TypeError; with the shutdown time-out when the server is shutting down; with a transport error when it has
   #    stopped), its client loop yields nothing, and afterwards the server answers as if that call had never installed
@@ -362,9 +524,6 @@ def _cover(case, obs):
   ths = case.get('threads')
   if not ths or not any(_bad_build(p) for p in ths) or 'trace' not in obs:
     return
-  w = oracle(case, obs)
-  if w is not None and finding(case, w) is None:
-    _COV['(runs that failed the oracle)'] += 1
   trace = obs['trace']
   first, last, ops, where = {}, {}, collections.defaultdict(list), collections.defaultdict(dict)
   for k, (tid, lbl) in enumerate(trace):
@@ -402,8 +561,64 @@ def _cover(case, obs):
         _COV['failed-init: it stopped a live generator, a request is issued after it'] += 1
 
 
+W_INIT_AFTER = ('window: an init_generator passed its entry check of the shutdown flag BEFORE the flag was set and took the '
+                'generator lock AFTER the shutdown callback had completed')
+W_INIT_BETWEEN = ('window: an init_generator passed its entry check before the shutdown flag was set and took the generator lock '
+                  'after it was set, before the shutdown callback')
+W_NEXT_REPLACED = ('window: a next_batch request read self._generator, the generator was stopped / replaced / shut down, then the '
+                   'request entered get_batch on the old queue')
+W_INIT_LATE = 'window: an init_generator arrived after the shutdown callback had completed (entry check answers)'
+PROMISED += [W_INIT_AFTER, W_INIT_BETWEEN, W_NEXT_REPLACED, W_INIT_LATE]
+
+
+def _cover_windows(case, obs):
+  """which check-to-lock windows a run went through: from the ORDER of synchronisation operations only"""
+  ths = case.get('threads')
+  trace = obs.get('trace') if isinstance(obs, dict) else None
+  if not ths or not trace:
+    return
+  where = collections.defaultdict(dict)
+  for k, (tid, lbl) in enumerate(trace):
+    where[tid].setdefault(lbl, k)
+    if '#' in lbl:
+      where[tid].setdefault('#first', k)
+  flag = min((where[j + 1]['acquire shut'] for j, q in enumerate(ths)
+              if q['kind'] == 'shutdown' and 'acquire shut' in where[j + 1]), default=None)
+  cb_start, cb_end = where[lp.MAIN].get('acquire gen'), where[lp.MAIN].get('release gen')
+  for i, p in enumerate(ths):
+    w = where[i + 1]
+    if p['kind'] in ('init', 'client') and 'start' in w:
+      took = w.get('acquire gen')
+      if flag is not None and w['start'] < flag and took is not None:
+        if cb_end is not None and took > cb_end:
+          _COV[W_INIT_AFTER] += 1
+        elif took > flag and (cb_start is None or took < cb_start):
+          _COV[W_INIT_BETWEEN] += 1
+      if cb_end is not None and w['start'] > cb_end:
+        _COV[W_INIT_LATE] += 1
+    if p['kind'] == 'next' and 'start' in w and '#first' in w:
+      # somebody else's locked stop (maybe_stop takes the queue's states lock) ran entirely inside the gap
+      others = [k for k, (tid, lbl) in enumerate(trace)
+                if w['start'] < k < w['#first'] and tid != i + 1 and lbl.startswith('release gen')]
+      if others:
+        _COV[W_NEXT_REPLACED] += 1
+
+
+_COV_VAL = collections.Counter()
+
+
 def nontrivial(case, obs):
+  if _is_values(case):
+    if case.get('special') is not None:
+      _COV_VAL[(case['role'], lv.json.dumps(case['special']))] += 1
+    return bool(case['yields']) or 'raise' in case['fin']
+  ths = case.get('threads') or []
+  if 'trace' in obs and (any(_bad_build(p) for p in ths) or case.get('sched', {}).get('kind') == 'hold'):
+    w = oracle(case, obs)
+    if w is not None and finding(case, w) is None:
+      _COV['(runs that failed the oracle)'] += 1      # the promised arms are enforced on runs that pass the oracle only
   _cover(case, obs)
+  _cover_windows(case, obs)
   ch = obs['choices']
   return sum(1 for a, b in zip(ch, ch[1:]) if a != b) >= 10
 
@@ -411,6 +626,11 @@ def nontrivial(case, obs):
 def finding(case, what):
   """C15-F27: the protocol has no session identity — a client whose generator is replaced between two of
   its requests continues on the new generator (needs a client plus another init_generator/client)."""
+  if _is_values(case):
+    # C15-F-inband-exception: an ELEMENT of the generator that is itself an Exception instance is read as a marker
+    if any(t[0] == 'exc' for t in case['yields']) and what and ('yielded' in what or 'did not end' in what or 'raised' in what):
+      return 'C15-F-inband-exception'
+    return None
   if 'threads' not in case:
     return None
   ths = case['threads']
@@ -422,6 +642,12 @@ def finding(case, what):
 
 
 def neighbours(case, rng):
+  if _is_values(case):
+    for b in (1, 2, 3, 5):
+      for pf in (1, 2, 3):
+        for mode in ('inline', 'threaded'):
+          yield dict(case, batch=b, prefetch=pf, mode=mode)
+    return
   for k in range(400):
     c = copy.deepcopy(case)
     c['sched'] = sched_spec(rng)
@@ -435,6 +661,18 @@ def neighbours(case, rng):
 
 
 def shrink(case, fails):
+  if _is_values(case):
+    cur = case
+    changed = True
+    while changed:
+      changed = False
+      for i in range(len(cur['yields'])):
+        c = dict(cur, yields=cur['yields'][:i] + cur['yields'][i + 1:])
+        if fails(c) is not None:
+          cur, changed = c, True
+          break
+    return cur
+
   def bad(c):
     """a genuine failure of the candidate (a schedule that no longer fits the smaller case is not one)"""
     w = fails(c)
@@ -608,6 +846,31 @@ def _explore_stage(ctx):
   ctx.notes.append(PROVED_LIVENESS)
 
 
+def _values_coverage(ctx):
+  """every special value the source names, in every role, was run (exit 2 otherwise); what was found is published"""
+  from harness.core import InfraError, REPO
+  lit = lv.special_literals(REPO)
+  ctx.count('values', 'exception classes named by the code', len(lit['classes']))
+  ctx.count('values', 'exceptions the code constructs', len(lit['excs']))
+  ctx.count('values', 'constants the code compares with', len(lit['consts']))
+  ctx.notes.append('special values read off the source: classes ' + ', '.join(lit['classes']) + '; constructed: ' +
+                   '; '.join(f"{t[1]}({', '.join(repr(a[1]) for a in t[2])})" for t in lit['excs']) +
+                   '; constants: ' + lv.json.dumps(lit['consts']))
+  if len(lit['classes']) < 3 or not (lit['excs'] or lit['consts']):
+    raise InfraError(f'the scan of the protocol code found too little to be right: {lit}')
+  missing = []
+  for t in lv.derived_specials(lit) + lv.plain_specials(lit):
+    for role in ('raise', 'yield', 'return'):
+      if role == 'raise' and t[0] != 'exc':
+        continue
+      n = _COV_VAL.get((role, lv.json.dumps(t)), 0)
+      ctx.count('values', f'{role}', 1 if n else 0)
+      if not n:
+        missing.append((role, t))
+  if missing:
+    raise InfraError(f'special values not exercised: {missing[:5]} (+{max(0, len(missing) - 5)})')
+
+
 def extra(ctx):
   import logging
   import threading
@@ -618,6 +881,7 @@ def extra(ctx):
   # enforced on runs whose failed-init cases all pass the oracle (a failing one ends in a verdict, not here)
   if missing and not _COV.get('(runs that failed the oracle)'):
     raise InfraError(f'the runs did not exercise promised arms: {missing}')
+  _values_coverage(ctx)
   _explore_stage(ctx)
   logging.disable(logging.CRITICAL)
   hook = threading.excepthook
